@@ -22,7 +22,7 @@ class Tracker:
         self.cl = {}
         for name, cl in world.clients.items():
             self.cl[name] = {"triggers": [], "pake_ok": False, "good_nonpake": False, "bad_seen": False,
-                             "heard": False, "at_close": None, "nclosed_seen": 0, "ever_opened": False,
+                             "heard": False, "honest_phases": set(), "nev": 0, "nmsg": 0, "unbacked": [], "at_close": None, "nclosed_seen": 0, "ever_opened": False,
                              "close_frames": [], "welcome_err": False}
         self._orig_deliver = world._deliver
         world._deliver = self._deliver_hook
@@ -74,6 +74,8 @@ class Tracker:
             st["triggers"].append(("server", self.saw_peer(name)))
         elif t == "message" and msg.get("side") != cl.side:
             honest = self._honest(msg)
+            if honest and self.codes_match() and msg["phase"] != "pake":
+                st["honest_phases"].add(msg["phase"])
             if honest and self.codes_match():
                 if msg["phase"] == "pake":
                     st["pake_ok"] = True
@@ -135,6 +137,16 @@ class Tracker:
     def after(self, act):
         for name, cl in self.w.clients.items():
             st = self.cl[name]
+            # every plaintext handed to the application must be backed by a frame that its named sender really
+            # added under exactly that phase, delivered to this client beforehand (C02)
+            for k, _ in cl.events[st["nev"]:]:
+                if k == "versions" and "version" not in st["honest_phases"]:
+                    st["unbacked"].append("versions")
+                elif k == "message":
+                    if str(st["nmsg"]) not in st["honest_phases"]:
+                        st["unbacked"].append("message#%d" % st["nmsg"])
+                    st["nmsg"] += 1
+            st["nev"] = len(cl.events)
             # the code this side really uses is what its 'code' event reports
             for k, v in cl.events:
                 if k == "code":
@@ -220,8 +232,7 @@ class Tracker:
                     continue
                 if kind.startswith("helper."):
                     continue
-                closed_before = any(k == "closed" for k, _ in cl.events[:0]) or bool(getattr(cl, "closed_at", None) is not None
-                                                                                 and when >= cl.closed_at)
+                closed_before = bool(getattr(cl, "closed_at", None) is not None and when > cl.closed_at)
                 r = "pending" if res is None else res[0]
                 late.append({"kind": kind, "res": r, "closedBefore": closed_before})
             dvals = [ident("D", r) if isinstance(r, bytes) else "exc:" + type(r).__name__ for _, r in derived]
@@ -254,7 +265,7 @@ class Tracker:
                 "closeCalled": cl.close_called, "dead": bool(getattr(cl, "dead", False)),
                 "codeApi": list(cl.code_api),
                 "selfClosed": getattr(self, "self_closed", {}).get(name, "-"),
-                "verifier": verifier, "derived": dvals, "derivedDistinct": dd, "heard": st["heard"],
+                "verifier": verifier, "derived": dvals, "derivedDistinct": dd, "heard": st["heard"], "unbacked": list(st["unbacked"]),
             }
         if extra:
             out.update(extra)
